@@ -443,36 +443,51 @@ def overtaken_case(acc, seed, tag):
         return W.run(max_steps=W.steps + 6000)
     w = {"kind": "overtaken", "tag": tag, "accounts": nacc, "latecomer": None}
     try:
+        scenario = r.choice(["group-first-damaged"] * 3 + ["direct-damaged", "direct-crossing"])
+        w["scenario"] = scenario
+        acc.count("overtaken_scenario:" + scenario)
+        R1 = phones[1]
         acts = [{"op": "connect", "who": p} for p in phones] + [{"op": "wait-quiet"}]
-        if r.random() < 0.7:
+        if scenario == "direct-damaged" or (scenario == "group-first-damaged" and r.random() < 0.7):
             # the members know each other pairwise already
             for p in phones[1:]:
                 acts += [send(S, "%s@s.whatsapp.net" % p, r.choice(KINDS)), {"op": "wait-quiet"}]
         if not run_actions(acts):
             acc.inconc("%s: not quiet after the opening" % tag)
             return
-        # the sender's first message to the group, damaged on its way to the members; stepped until the sender has encrypted and
-        # written it (its sender key exists), before the server has relayed it
-        W.do_action(send(S, gj, r.choice(KINDS), "corrupt"))
-        guard = 0
-        while W.clients[S].manager().load_senderkey(gj).isEmpty():
-            guard += 1
-            if not W.step() or guard > 500:
-                acc.inconc("%s: the first group message was never encrypted" % tag)
-                return
+        if scenario == "group-first-damaged":
+            # the sender's first message to the group, damaged on its way to the members; stepped until the sender has encrypted
+            # and written it (its sender key exists), before the server has relayed it
+            W.do_action(send(S, gj, r.choice(KINDS), "corrupt"))
+            guard = 0
+            while W.clients[S].manager().load_senderkey(gj).isEmpty():
+                guard += 1
+                if not W.step() or guard > 500:
+                    acc.inconc("%s: the first group message was never encrypted" % tag)
+                    return
+            target2 = gj
+        elif scenario == "direct-damaged":
+            # a damaged 1:1 message is written; its retry (new keys, new session) is served while the next one is held
+            W.do_action(send(S, "%s@s.whatsapp.net" % R1, r.choice(KINDS), "corrupt"))
+            target2 = "%s@s.whatsapp.net" % R1
+        else:
+            # first contact in both directions at once: the peer's first message is on its way while ours is held
+            W.do_action(send(R1, "%s@s.whatsapp.net" % S, r.choice(KINDS)))
+            target2 = "%s@s.whatsapp.net" % R1
         W.threaded_sends = True
-        wide = r.random() < 0.35
+        wide = r.random() < (0.35 if scenario == "group-first-damaged" else 0.7)
         if wide:
             # anywhere on the sender thread's way through the send layer (any statement of layer_send.py / layer_base.py)
-            k, funcs = r.randint(1, 45), None
+            k, funcs = r.randint(1, 25), None
             acc.count("overtaken_wide_placements")
         else:
             k, funcs = r.choice([1, 1, 2, 4]), ("sendEncEntities",)
-        with inject.PauseAt(("yowsup/layers/axolotl/layer_send.py", "yowsup/layers/axolotl/layer_base.py") if wide else ("yowsup/layers/axolotl/layer_send.py",),
+        with inject.PauseAt(("yowsup/layers/axolotl/layer_send.py", "yowsup/layers/axolotl/layer_base.py", "yowsup/axolotl/manager.py",
+                             "yowsup/layers/protocol_messages/layer.py") if wide else ("yowsup/layers/axolotl/layer_send.py",),
                             k, "verif-app-sender-0", hold=r.choice([1.0, 1.5]), funcs=funcs) as pa:
-            W.do_action(send(S, gj, r.choice(KINDS)))
+            W.do_action(send(S, target2, r.choice(KINDS)))
             if not pa.at_point.wait(3 if wide else 10):
-                if not wide:
+                if not wide and scenario != "direct-crossing":
                     acc.inconc("%s: the sender thread never reached the place between encryption and hand-over" % tag)
                     return
                 # (the thread made fewer than k steps in these files: an unplaced threaded send)
@@ -486,13 +501,15 @@ def overtaken_case(acc, seed, tag):
                 steps += 1
             if len([1 for ph, t in W.wire_receipts if t[1].get("type") == "retry"]) > n0 or any(t[1].get("type") == "retry" for ph, t in W.wire_receipts):
                 acc.count("overtaken_retry_served_around_hold")
+            if scenario == "direct-crossing":
+                acc.count("overtaken_crossing_first_contacts")
             pa.release()
             quiet = W.run(max_steps=W.steps + 6000)
         if not quiet:
             acc.inconc("%s: not quiet after the held message was released" % tag)
             return
         # ... and the conversation goes on
-        more = [send(r.choice(phones), gj, r.choice(KINDS)) for _ in range(r.randint(0, 2))]
+        more = [send(r.choice(phones), gj, r.choice(KINDS)) for _ in range(r.randint(0, 2))] + [send(R1, "%s@s.whatsapp.net" % S, r.choice(KINDS)) for _ in range(r.randint(0, 1))]
         more = [a for a in more]
         W.threaded_sends = False
         if not run_actions(more + [{"op": "wait-quiet"}]):
